@@ -119,6 +119,63 @@ func c02HookPositional(c *Ctx) {
 	}
 	findSplit(fi.Decl.Body, isParams)
 	if split == nil {
+		// the parameter bytes may reach the split through local copies (`raw := string(p.params)`; also what an
+		// inlined helper's parameter becomes): follow locals that are plain copies/conversions of the source
+		alias := map[types.Object]bool{}
+		isSrc := func(m ast.Node) bool {
+			if isParams(m) {
+				return true
+			}
+			id, ok := m.(*ast.Ident)
+			return ok && alias[info.Uses[id]]
+		}
+		isCopy := func(e ast.Expr) bool {
+			e = unparen(e)
+			if call, ok := e.(*ast.CallExpr); ok {
+				tv, isT := info.Types[call.Fun]
+				if !isT || !tv.IsType() || len(call.Args) != 1 {
+					return false
+				}
+				e = unparen(call.Args[0])
+			}
+			switch e.(type) {
+			case *ast.Ident, *ast.SelectorExpr:
+				return isSrc(e)
+			}
+			return false
+		}
+		for changed, rounds := true, 0; changed && rounds < 8; rounds++ {
+			changed = false
+			ast.Inspect(fi.Decl.Body, func(n ast.Node) bool {
+				var names []*ast.Ident
+				var values []ast.Expr
+				switch t := n.(type) {
+				case *ast.AssignStmt:
+					if len(t.Lhs) == len(t.Rhs) {
+						for i, l := range t.Lhs {
+							if id, ok := l.(*ast.Ident); ok {
+								names, values = append(names, id), append(values, t.Rhs[i])
+							}
+						}
+					}
+				case *ast.ValueSpec:
+					if len(t.Names) == len(t.Values) {
+						names, values = t.Names, t.Values
+					}
+				}
+				for i, id := range names {
+					if o := info.ObjectOf(id); o != nil && !alias[o] && isCopy(values[i]) {
+						alias[o], changed = true, true
+					}
+				}
+				return true
+			})
+		}
+		if len(alias) > 0 {
+			findSplit(fi.Decl.Body, isSrc)
+		}
+	}
+	if split == nil {
 		// the conversion may live in a helper that is handed the parameter bytes
 		ast.Inspect(fi.Decl.Body, func(n ast.Node) bool {
 			call, ok := n.(*ast.CallExpr)
@@ -172,6 +229,65 @@ func c02HookPositional(c *Ctx) {
 	}
 	// enumerate the (acyclic) paths of the loop body
 	var count func(stmts []ast.Stmt, n int) []int
+	// discardsList: `break L` where L labels a statement that encloses the loop AND the declaration of every
+	// list the loop appends to: the partly built list goes out of scope, exactly as with a `return` (this is
+	// what the `return nil, err` of a helper becomes when the helper is inlined into hook)
+	discardsList := func(label string) bool {
+		var target *ast.LabeledStmt
+		ast.Inspect(body, func(n ast.Node) bool {
+			if ls, ok := n.(*ast.LabeledStmt); ok && ls.Label.Name == label {
+				target = ls
+			}
+			return true
+		})
+		if target == nil || target.Stmt == ast.Stmt(loop) {
+			return false
+		}
+		// (containment is decided on the tree, not by positions: inlined statements carry foreign positions)
+		declared := map[types.Object]bool{}
+		hasLoop := false
+		ast.Inspect(target.Stmt, func(n ast.Node) bool {
+			if n == ast.Node(loop) {
+				hasLoop = true
+			}
+			if id, ok := n.(*ast.Ident); ok {
+				if o := info.Defs[id]; o != nil {
+					declared[o] = true
+				}
+			}
+			return true
+		})
+		if !hasLoop {
+			return false
+		}
+		lists := 0
+		inScope := true
+		ast.Inspect(loop.Body, func(n ast.Node) bool {
+			as, ok := n.(*ast.AssignStmt)
+			if !ok || len(as.Rhs) != 1 || len(as.Lhs) != 1 {
+				return true
+			}
+			call, ok := as.Rhs[0].(*ast.CallExpr)
+			if !ok {
+				return true
+			}
+			if id, ok := call.Fun.(*ast.Ident); !ok || id.Name != "append" {
+				return true
+			}
+			lid, ok := as.Lhs[0].(*ast.Ident)
+			if !ok {
+				inScope = false // appends to a field or element: survives the labelled statement
+				return true
+			}
+			o := info.ObjectOf(lid)
+			if o == nil || !declared[o] {
+				inScope = false
+			}
+			lists++
+			return true
+		})
+		return lists > 0 && inScope
+	}
 	isAppend := func(s ast.Stmt) bool {
 		as, ok := s.(*ast.AssignStmt)
 		if !ok || len(as.Rhs) != 1 {
@@ -209,6 +325,8 @@ func c02HookPositional(c *Ctx) {
 				case *ast.BranchStmt:
 					if t.Tok == token.CONTINUE {
 						next = append(next, -(cur + 10)) // ended with cur appends
+					} else if t.Tok == token.BREAK && t.Label != nil && discardsList(t.Label.Name) {
+						next = append(next, -1001) // leaves the scope of the list being built: like a return
 					} else {
 						next = append(next, -1000)
 					}
